@@ -70,6 +70,54 @@ fn header_error(frag: &[u8]) -> bool {
 }
 
 /// split control objects (g12v1 / g41v1-4 with 0x17 / 0x28) into items; None if not purely controls
+/// `Some(true)`: the objects are control headers (g12v1 / g41v1-4, prefixed) mixed with at least one all-objects
+/// header (`gg vv 06`) of a class or static group, all whole; `Some(false)`: control headers only; `None`: anything else
+fn control_request_has_foreign_header(objs: &[u8]) -> Option<bool> {
+    let mut i = 0;
+    let mut foreign = false;
+    let mut controls = 0;
+    while i < objs.len() {
+        if i + 3 > objs.len() {
+            return None;
+        }
+        let (g, v, q) = (objs[i], objs[i + 1], objs[i + 2]);
+        if q == 0x06 && ((g == 60 && (1..=4).contains(&v)) || (matches!(g, 1 | 2 | 30) && v == 0)) {
+            foreign = true;
+            i += 3;
+            continue;
+        }
+        let osz = match (g, v) {
+            (12, 1) => 11,
+            (41, 1) => 5,
+            (41, 2) => 3,
+            (41, 3) => 5,
+            (41, 4) => 9,
+            _ => return None,
+        };
+        i += 3;
+        let (isz, count) = match q {
+            0x17 if i + 1 <= objs.len() => {
+                i += 1;
+                (1, objs[i - 1] as usize)
+            }
+            0x28 if i + 2 <= objs.len() => {
+                i += 2;
+                (2, u16::from_le_bytes([objs[i - 2], objs[i - 1]]) as usize)
+            }
+            _ => return None,
+        };
+        if count == 0 || i + count * (isz + osz) > objs.len() {
+            return None;
+        }
+        i += count * (isz + osz);
+        controls += 1;
+    }
+    if controls == 0 {
+        return None;
+    }
+    Some(foreign)
+}
+
 fn control_items(objs: &[u8]) -> Option<usize> {
     let mut i = 0;
     let mut n = 0;
@@ -703,6 +751,26 @@ pub fn check(hdr: &str, lines: &[String], trace: &[(String, Vec<String>)], mon: 
                         if bc {
                             fail(mon, hdr, "broadcast_bit_rule", "", &format!("op {k}: broadcast bit without broadcast"));
                         }
+                    }
+                }
+            }
+        }
+
+        // ------------------------------------------------------------------ C12 (controls)
+        // a control request of which ANY header is not a control header is refused as a whole: nothing is selected
+        // or operated, and (unless the function forbids a reply) the reply carries PARAMETER_ERROR and no objects
+        if let Some((_s, _d, f)) = &frag {
+            if delivered_now && accepted_master && to_us_flag && !is_bc && !herr && !repeat_op && matches!(func, Some(3) | Some(4) | Some(5) | Some(6)) && f.len() > 2 {
+                if control_request_has_foreign_header(&f[2..]) == Some(true) {
+                    let executed = outs.iter().any(|o| o.starts_with("cb select") || o.starts_with("cb operate"));
+                    let reply = t.iter().find(|x| x.bytes.len() >= 4 && x.bytes[1] == 0x81 && Some(x.bytes[0] & 0x0F) == seq);
+                    let bad_reply = match (func, reply) {
+                        (Some(6), _) => false,
+                        (_, Some(r)) => r.bytes[3] & 0x04 == 0 || r.bytes.len() != 4,
+                        (_, None) => false,
+                    };
+                    if executed || bad_reply {
+                        fail(mon, hdr, "control_request_refused_as_a_whole", "", &format!("op {k}: {op} -> {}", outs.join(" | ")));
                     }
                 }
             }
